@@ -9,11 +9,10 @@ use std::pin::Pin;
 use std::sync::atomic::{AtomicUsize, Ordering};
 use std::sync::{Arc, Mutex};
 use std::time::{Duration, Instant};
-use yash_env::Env;
 use yash_env::builtin::{Builtin, Result as BResult, Type};
 use yash_env::io::Fd;
 use yash_env::semantics::{ExitStatus, Field};
-use yash_env::system::Read as _;
+use yash_env::system::{GetPid as _, Read as _};
 use yash_env::system::concurrency::{ReadAll as _, WriteAll as _};
 use yvcommon::sched::Schedule;
 use yvcommon::shell::{ShellCfg, Sys, VEnv, push_event, run_shell, stream_byte};
@@ -215,7 +214,7 @@ fn explore(idx: usize, line: &Value, plan: &Plan, seed: u64, current: &Mutex<(us
     let script_bytes = render(&line["script"]);
     let script = String::from_utf8(script_bytes).expect("script is ASCII");
     let mut acc = Acc { map: BTreeMap::new(), runs: 0 };
-    let mut go = |schedule: Schedule, name: &str, acc: &mut Acc| -> Vec<(usize, usize)> {
+    let go = |schedule: Schedule, name: &str, acc: &mut Acc| -> Vec<(usize, usize)> {
         *current.lock().unwrap() = (idx, name.to_string(), Instant::now());
         let o = run_once(&script, schedule, plan.step_limit);
         let ch = o.choices.clone();
@@ -305,7 +304,8 @@ pub fn run(args: &[String]) -> i32 {
         .collect();
     let lines = Arc::new(lines);
     let next = Arc::new(AtomicUsize::new(0));
-    let out = Arc::new(Mutex::new(yvcommon::util::open_out(args)));
+    let out_path = opt(args, "--out").expect("--out").to_string();
+    let out = Arc::new(Mutex::new(std::io::BufWriter::with_capacity(1 << 20, std::fs::File::create(&out_path).expect("create --out"))));
     let total_runs = Arc::new(AtomicUsize::new(0));
     let total_recs = Arc::new(AtomicUsize::new(0));
     let currents: Vec<Arc<Mutex<(usize, String, Instant)>>> =
